@@ -4,7 +4,7 @@ harness/queuemon.cpp (tsan and asan flavors, public API only) records every clie
 child behaviours (harness/qchild.c) on the lane-based and serial execution queues and judges the log offline; this driver
 shards the profiles over the cores, resumes a shard after a sanitizer abort or a watchdog exit, collects ThreadSanitizer
 reports, and runs one small workload under strace fault injection (poll -> ENOMEM)."""
-import json, os, re, shutil, signal, subprocess, tempfile, time
+import json, os, re, shutil, signal, subprocess, tempfile, threading, time
 import vlib
 
 LIBS = ["llbuildBasic", "llvmSupport"]
@@ -13,23 +13,23 @@ TSAN_ENV = {"TSAN_OPTIONS": "halt_on_error=0:exitcode=0:second_deadlock_stack=1:
 # (profile, cases quick, cases thorough) per flavor; counts are totals split over shards
 PLAN = [
     # profile        quick  thorough
-    ("jobs",          72,   2400),
-    ("procs",         56,   1500),
-    ("cancel",        40,   1000),
-    ("cancelkill",     4,     60),
-    ("cancelcompl",   12,    200),
-    ("faults",        32,    600),
-    ("release",       48,    900),
-    ("env",           24,    400),
-    ("envreserved",   12,    100),
-    ("storm",         16,    300),
+    ("jobs",         480,   6000),
+    ("procs",        320,   4000),
+    ("cancel",       240,   3000),
+    ("cancelkill",     8,     96),
+    ("cancelcompl",   48,    600),
+    ("faults",       160,   2000),
+    ("release",      240,   3000),
+    ("env",          120,   1200),
+    ("envreserved",   32,    300),
+    ("storm",         96,   1200),
 ]
 SUM_KEYS = ["cases", "events", "jobs_submitted", "jobs_executed_once", "launches", "real_children", "output_bytes", "output_callbacks",
             "status_Succeeded", "status_Failed", "status_Cancelled", "spawn_error_launches", "spawn_error_failed", "fd_exhaustion_failures",
             "children_not_spawned", "lane_released_observed", "cases_with_cancel", "children_alive_at_cancel", "launches_after_cancel",
             "launches_after_cancel_cancelled", "hanging_children_interrupted_and_reaped", "hanging_children_needing_sigkill_reaped",
             "env_children", "storm_signals", "cases_reaching_lane_limit", "exit_code_raw_wait_status", "exit_code_decoded",
-            "output_prefix_of_cancelled_child", "suppressed_duplicate_violations"]
+            "output_prefix_of_cancelled_child", "injected_management_errors", "suppressed_duplicate_violations"]
 
 
 def build_child():
@@ -44,21 +44,26 @@ def build_child():
     return out
 
 
+_HANG_LOCK = threading.Lock()
+_HANGS_CONFIRMED = set()
+
+
 def _proc_info(pid):
     try:
         st = open("/proc/%s/stat" % pid).read()
         comm = st[st.index("(") + 1:st.rindex(")")]
-        ppid = int(st[st.rindex(")") + 2:].split()[1])
+        rest = st[st.rindex(")") + 2:].split()
         argv0 = open("/proc/%s/cmdline" % pid, "rb").read().split(b"\0")[0].decode("utf-8", "replace")
-        return comm, ppid, argv0
+        return comm, int(rest[1]), argv0, rest[0]
     except (OSError, ValueError, IndexError):
         return None
 
 
 def kill_orphans(child):
-    """Helper children whose harness is gone (abort, watchdog exit) would sleep forever: llbuild gives every child its own
-    process group, so the driver's killpg() does not reach them.  Only children of THIS helper path whose parent is not a
-    living harness are touched."""
+    """Helper children whose harness is gone (abort, watchdog exit) would sleep forever, and because llbuild does not mark
+    its descriptors close-on-exec they keep the dead harness's pipes (and the sanitizer's symbolizer) alive.  llbuild gives
+    every child its own process group, so the driver's killpg() does not reach them.  Only processes running THIS helper
+    path whose parent is not a living harness are touched."""
     n = 0
     for pid in os.listdir("/proc"):
         if not pid.isdigit():
@@ -67,7 +72,7 @@ def kill_orphans(child):
         if not info or info[2] != child:
             continue
         par = _proc_info(info[1])
-        if par and par[0].startswith("queuemon"):
+        if par and par[0].startswith("queuemon") and par[3] != "Z":
             continue
         try:
             os.kill(int(pid), signal.SIGKILL)
@@ -77,33 +82,39 @@ def kill_orphans(child):
     return n
 
 
-def run_wrapped(cmd, timeout, env, child):
-    """vlib.run_child for a harness under strace -f: when the harness dies with children still alive, strace keeps waiting
-    for those orphans; notice that the harness is gone and remove them."""
+def run_harness(cmd, timeout, env, child, wrapped=False):
+    """Like vlib.run_child, but output goes to files (a leaked descriptor in an orphan must not keep us waiting for EOF),
+    orphaned helper children are removed as soon as the harness is gone, and under strace -f (which would keep waiting
+    for the orphans) the harness's death is noticed from /proc."""
     e = dict(os.environ)
     e.update(vlib.SAN_ENV)
     e.update(env or {})
+    os.makedirs(vlib.SCRATCH, exist_ok=True)
     outf = tempfile.TemporaryFile(dir=vlib.SCRATCH)
     errf = tempfile.TemporaryFile(dir=vlib.SCRATCH)
-    p = subprocess.Popen(cmd, stdout=outf, stderr=errf, stdin=subprocess.DEVNULL, env=e, start_new_session=True)
+    try:
+        p = subprocess.Popen(cmd, stdout=outf, stderr=errf, stdin=subprocess.DEVNULL, env=e, start_new_session=True)
+    except OSError as ex:
+        raise vlib.HarnessFailure("cannot start %r: %s" % (cmd, ex))
     t0 = time.time()
     gone_since = None
     timed_out = False
     while p.poll() is None:
-        time.sleep(0.2)
-        alive = False
-        for pid in os.listdir("/proc"):
-            if pid.isdigit():
-                info = _proc_info(pid)
-                if info and info[1] == p.pid and info[0].startswith("queuemon"):
-                    alive = True
-                    break
-        if alive:
-            gone_since = None
-        else:
-            gone_since = gone_since or time.time()
-            if time.time() - gone_since > 1.0:
-                kill_orphans(child)
+        time.sleep(0.05 if time.time() - t0 < 5 else 0.25)
+        if wrapped:
+            alive = False
+            for pid in os.listdir("/proc"):
+                if pid.isdigit():
+                    info = _proc_info(pid)
+                    if info and info[1] == p.pid and info[0].startswith("queuemon") and info[3] != "Z":
+                        alive = True
+                        break
+            if alive:
+                gone_since = None
+            else:
+                gone_since = gone_since or time.time()
+                if time.time() - gone_since > 1.0:
+                    kill_orphans(child)
         if time.time() - t0 > timeout:
             timed_out = True
             try:
@@ -111,13 +122,56 @@ def run_wrapped(cmd, timeout, env, child):
             except OSError:
                 pass
             p.wait()
+    if p.returncode != 0:
+        kill_orphans(child)
     outf.seek(0)
     errf.seek(0)
     return (-9 if timed_out else p.returncode), outf.read(), errf.read(), timed_out
 
 
+def _short(fn):
+    lam = "lambda" in fn or "$_" in fn
+    fn = fn.replace("(anonymous namespace)::", "")
+    fn = re.sub(r"^(void|bool|int|unsigned|auto) ", "", fn)
+    fn = re.split(r"[(<]", fn, 1)[0].strip()
+    return (fn[-60:] or "?") + ("::<lambda>" if lam else "")
+
+
+def _repo_frames(text, limit):
+    names = []
+    for line in text.splitlines():
+        m = re.match(r"\s*#\d+ (?:0x[0-9a-f]+ in )?(.+?) (/[^\s:]+)(?::\d+)*(?: \(.*)?$", line)
+        if not m or not m.group(2).startswith("/repo/"):
+            continue
+        tag = "%s[%s]" % (_short(m.group(1)), os.path.basename(m.group(2)))
+        if tag not in names:
+            names.append(tag)
+        if len(names) >= limit:
+            break
+    return names
+
+
+def asan_key(err):
+    """Structural key for an ASan/UBSan/assert abort: kind + first frames inside /repo (no addresses)."""
+    m = re.search(r"Assertion [^\n]* failed", err)
+    if m:
+        at = err.index(m.group(0))
+        return "abort: %s @ %s" % (m.group(0)[:160], " < ".join(_repo_frames(err[at:at + 30000], 3))), err[max(0, at - 300):at + 6000]
+    m = re.search(r"ERROR: AddressSanitizer: (\S+)", err)
+    if m:
+        at = err.index(m.group(0))
+        return "asan: %s @ %s" % (m.group(1), " < ".join(_repo_frames(err[at:at + 30000], 3))), err[at:at + 7000]
+    m = re.search(r"runtime error: [^\n]*", err) or re.search(r"LLVM ERROR: [^\n]*", err)
+    if m:
+        at = err.index(m.group(0))
+        return "abort: %s @ %s" % (m.group(0)[:160], " < ".join(_repo_frames(err[at:at + 30000], 3))), err[max(0, at - 300):at + 6000]
+    return None, err[-5000:]
+
+
 def tsan_reports(err):
-    """[(key, case, text)] for every ThreadSanitizer report in a shard's stderr, attributed to the last @case marker before it."""
+    """[(key, case, text)] for every ThreadSanitizer report in a shard's stderr, attributed to the last @case marker before it.
+    'thread leak' reports are dropped: they are produced by the watchdog's _exit() with threads still running, and threads
+    left behind by the queue are judged by the harness's own /proc/self/task monitor."""
     res = []
     case = None
     block = None
@@ -136,15 +190,8 @@ def tsan_reports(err):
             if line.startswith("SUMMARY: ThreadSanitizer"):
                 text = "\n".join(block)
                 kind = re.match(r"WARNING: ThreadSanitizer: ([^(]*)", block[0]).group(1).strip()
-                fr = re.findall(r"#\d+ (.+?) (/repo/[^\s:]+|/verif/[^\s:]+)(?::\d+)*", text)
-                names = []
-                for fn, path in fr:
-                    fn = re.sub(r"\(.*", "", fn).strip()
-                    fn = re.sub(r"<.*", "", fn)
-                    tag = "%s[%s]" % (fn[-70:], os.path.basename(path))
-                    if tag not in names:
-                        names.append(tag)
-                res.append(("tsan: %s @ %s" % (kind, " < ".join(names[:3])), case, text[:7000]))
+                if kind != "thread leak":
+                    res.append(("tsan: %s @ %s" % (kind, " < ".join(_repo_frames(text, 4))), case, text[:7000]))
                 block = None
     return res
 
@@ -154,6 +201,7 @@ def run_range(binp, flavor, profile, seed, lo, hi, child, sd, thorough, tag, wat
     Returns dict(recs=[json records], events=[(kind, info)])"""
     recs, events = [], []
     guard = 0
+    hangs_here = 0
     env = dict(TSAN_ENV) if flavor == "tsan" else {}
     while lo < hi and guard < 40:
         guard += 1
@@ -161,10 +209,7 @@ def run_range(binp, flavor, profile, seed, lo, hi, child, sd, thorough, tag, wat
         base = [binp, "--profile", profile, "--seed", str(seed), "--from", str(lo), "--count", str(hi - lo), "--child", child, "--dir", d,
                 "--watchdog-ms", str(watchdog_ms)] + (["--thorough"] if thorough else []) + (extra or [])
         cmd = (wrap or []) + base
-        if wrap:
-            rc, out, err, to = run_wrapped(cmd, 3600 if thorough else 1200, env, child)
-        else:
-            rc, out, err, to = vlib.run_child(cmd, 3600 if thorough else 1200, env=env)
+        rc, out, err, to = run_harness(cmd, 3600 if thorough else 1200, env, child, wrapped=bool(wrap))
         e = err.decode("utf-8", "replace")
         rr = vlib.parse_jsonl(out)
         for r in rr:
@@ -188,12 +233,26 @@ def run_range(binp, flavor, profile, seed, lo, hi, child, sd, thorough, tag, wat
             events.append(("walltimeout", dict(cmd=" ".join(cmd), case=last)))
         elif rc == 3:  # the harness's logical watchdog: believe it only when it fires again on the same case alone
             hang = [r for r in rr if "viol" in r and r["viol"].startswith("hang:")]
+            hangs_here += 1
+            if hangs_here > 2 and last is not None:  # a third hang in one piece: the verdict is known, stop paying for it
+                recs += [r for r in rr if not ("viol" in r and r["viol"].startswith("hang:"))] + hang[:1]
+                events.append(("abandoned", dict(cases=hi - last - 1)))
+                break
             recs += [r for r in rr if not ("viol" in r and r["viol"].startswith("hang:"))]
             one = (wrap or []) + [binp, "--profile", profile, "--seed", str(seed), "--case", str(last), "--child", child, "--dir", d + "r",
                                   "--watchdog-ms", str(watchdog_ms)] + (["--thorough"] if thorough else []) + (extra or [])
-            rc2, out2, err2, to2 = run_wrapped(one, 1200, env, child) if wrap else vlib.run_child(one, 1200, env=env)
+            hkey = hang[0]["viol"] if hang else "?"
+            with _HANG_LOCK:
+                known = hkey in _HANGS_CONFIRMED
+            if known:  # this very hang already fired twice in this run: do not pay for another confirmation
+                recs += hang[:1]
+                lo = (last if last is not None else hi) + 1
+                continue
+            rc2, out2, err2, to2 = run_harness(one, 1200, env, child, wrapped=bool(wrap))
             if rc2 == 3:
                 recs += hang[:1]
+                with _HANG_LOCK:
+                    _HANGS_CONFIRMED.add(hkey)
             elif rc2 != 0:
                 recs += hang[:1]  # the re-run died another way: keep the hang witness, the crash is reported on the way
                 events.append(("crash", dict(cmd=" ".join(one), rc=rc2, stderr=err2.decode("utf-8", "replace"), case=last)))
@@ -214,7 +273,7 @@ def run(tier, replay):
     th = tier == "thorough"
     child = build_child()
     bins = {fl: vlib.build_harness("queuemon", fl, ["queuemon.cpp"], libs=LIBS) for fl in ("tsan", "asan")}
-    watchdog_ms = 60000 if th else 30000
+    watchdog_ms = 60000 if th else 20000
     if replay:
         w = json.load(open(replay))["witness"]
         cmd = w.get("cmd", "").split()
@@ -224,12 +283,12 @@ def run(tier, replay):
         if w.get("wrapped_by"):
             cmd = w["wrapped_by"].split() + cmd
         os.makedirs(vlib.SCRATCH, exist_ok=True)
-        rc, out, err, to = vlib.run_child(cmd, 1200, env=TSAN_ENV if w.get("flavor") == "tsan" else None)
+        rc, out, err, to = run_harness(cmd, 1200, TSAN_ENV if w.get("flavor") == "tsan" else None, child, wrapped=bool(w.get("wrapped_by")))
         e = err.decode("utf-8", "replace")
         print(e[-3000:])
         bad = [r["viol"] for r in vlib.parse_jsonl(out) if "viol" in r] + [k for k, _, _ in tsan_reports(e)]
         if rc not in (0,):
-            bad.append("exit status %d %s" % (rc, vlib.sanitizer_summary(e) or ""))
+            bad.append("exit status %d %s" % (rc, asan_key(e)[0] or ""))
         for b in bad:
             print("VIOLATION property=C16 replay=%s  # %s" % (replay, b))
         shutil.rmtree(os.path.join(vlib.SCRATCH, "c16-replay"), ignore_errors=True)
@@ -242,7 +301,7 @@ def run(tier, replay):
         for prof, nq, nt in PLAN:
             n = nt if th else nq
             for fl in ("tsan", "asan"):
-                pieces = max(1, min(n, (8 if th else 4) if n >= 8 else 1))
+                pieces = max(1, min(n // 2, 16 if th else 8))
                 per = (n + pieces - 1) // pieces
                 for i in range(pieces):
                     lo, hi = i * per, min(n, (i + 1) * per)
@@ -262,14 +321,18 @@ def run(tier, replay):
 
         def one(t):
             tag = "%s%s" % (t["flavor"], "-inj" if t["wrap"] else "")
-            return t, run_range(bins[t["flavor"]], t["flavor"], t["profile"], chk.seed, t["lo"], t["hi"], child, sd, th, tag, watchdog_ms, wrap=t["wrap"], extra=t["extra"])
+            t["t0"] = time.time()
+            try:
+                return t, run_range(bins[t["flavor"]], t["flavor"], t["profile"], chk.seed, t["lo"], t["hi"], child, sd, th, tag, watchdog_ms, wrap=t["wrap"], extra=t["extra"])
+            finally:
+                t["secs"] = time.time() - t["t0"]
 
         merged = {}
         distinct = set()
         per_profile = {}
         tsan_seen = {}
         injected_cases = 0
-        for t, res in vlib.pmap(one, tasks):
+        for t, res in vlib.pmap(one, tasks, workers=2 * vlib.NCPU):
             for r in res["recs"]:
                 if "viol" in r:
                     key = r["viol"]
@@ -300,17 +363,23 @@ def run(tier, replay):
                                                         info["case"], child, os.path.join(vlib.SCRATCH, "c16-replay"), watchdog_ms,
                                                         (" " + " ".join(t["extra"])) if t["extra"] else "")})
                 elif kind == "crash":
-                    sig = vlib.sanitizer_summary(info["stderr"]) or ("exit status %s" % info["rc"])
-                    key = "crash: " + sig
+                    key, head = asan_key(info["stderr"])
+                    key = key or ("crash: exit status %s" % info["rc"])
+                    info["stderr"] = head
                     if t["wrap"]:
                         key += " [poll() failing with ENOMEM injected]"
                     chk.violation(key, {"flavor": t["flavor"], "profile": t["profile"], "case": info["case"], "cmd": info["cmd"], "rc": info["rc"],
-                                        "stderr": info["stderr"][-6000:]})
+                                        "stderr": info["stderr"]})
                 elif kind == "walltimeout":
                     chk.inconclusive.append("outer wall-clock watchdog: %s (case %s)" % (info["cmd"], info["case"]))
+                elif kind == "abandoned":
+                    chk.cov["cases_abandoned_after_repeated_hangs"] = chk.cov.get("cases_abandoned_after_repeated_hangs", 0) + info["cases"]
                 elif kind == "watchdog-once":
                     chk.cov["watchdog_fired_once_then_passed"] = chk.cov.get("watchdog_fired_once_then_passed", 0) + 1
 
+        if os.environ.get("C16_TIMING"):
+            for t in sorted(tasks, key=lambda t: -t.get("secs", 0))[:12]:
+                vlib.log("%6.1fs %s %s [%d,%d) %s" % (t.get("secs", 0), t["flavor"], t["profile"], t["lo"], t["hi"], "strace" if t["wrap"] else ""))
         for k in SUM_KEYS:
             chk.cov[k] = int(merged.get(k, 0))
         chk.cov["cases_by_profile_and_flavor"] = per_profile
@@ -318,7 +387,7 @@ def run(tier, replay):
         chk.cov["tsan_reports_by_key"] = tsan_seen
         chk.add(int(merged.get("jobs_executed_once", 0)) + int(merged.get("launches", 0)), len(distinct))
         need = {"real_children": 50, "lane_released_observed": 5, "children_alive_at_cancel": 5, "launches_after_cancel": 5, "fd_exhaustion_failures": 1,
-                "storm_signals": 100, "env_children": 10, "spawn_error_failed": 5, "cases_reaching_lane_limit": 5}
+                "storm_signals": 100, "injected_management_errors": 1, "env_children": 10, "spawn_error_failed": 5, "cases_reaching_lane_limit": 5}
         for k, v in need.items():
             if int(merged.get(k, 0)) < v:
                 chk.inconclusive.append("monitor saw too little: %s=%d (< %d)" % (k, int(merged.get(k, 0)), v))
